@@ -83,6 +83,14 @@ func s1Subscripts() []BashCase {
 			cases = append(cases, BashCase{Key: fmt.Sprintf("S1b/%s/len=%d", sh.name, L), Prog: SingleFile(stmts)})
 		}
 	}
+	// an index that is a call with an effect: evaluated once, both for s[i] and as a bound
+	cases = append(cases, BashCase{Key: "S1/cursor-index", Prog: SingleFile([]Stmt{
+		def("pos", il(0)), def("s", sl("abcdefghij")),
+		fn("next", nil, []Type{TInt}, IncDec{"pos", true}, ret(bin("-", vr("pos"), il(1)))),
+		pr(framed(Index{"s", call("next")}), framed(Index{"s", call("next")}), framed(Index{"s", call("next")})), pr(vr("pos")),
+		pr(framed(Substr{"s", call("next"), il(8)}), framed(Substr{"s", il(1), bin("+", call("next"), il(2))}), framed(Substr{"s", call("next"), nil})), pr(vr("pos")),
+		def("c", Index{"s", call("next")}), pr(framed(vr("c"))), pr(vr("pos")),
+	})})
 	// subscripts of subscripts, of parameters and of call results stored in variables
 	stmts := []Stmt{
 		fn("mid", []Param{{"p", TString}, {"a", TInt}, {"b", TInt}}, []Type{TString}, ret(Substr{"p", vr("a"), vr("b")})),
@@ -149,6 +157,42 @@ func s2Growth() []BashCase {
 }
 
 // S3: aliasing chains.
+// s3ManyParams: slices and strings handed over at parameter positions 1, 9, 10, 11 and 12.
+func s3ManyParams() []BashCase {
+	params := []Param{}
+	for i := 1; i <= 12; i++ {
+		switch i {
+		case 1, 10, 12:
+			params = append(params, Param{fmt.Sprintf("p%d", i), TSliceInt})
+		case 9, 11:
+			params = append(params, Param{fmt.Sprintf("p%d", i), TString})
+		default:
+			params = append(params, Param{fmt.Sprintf("p%d", i), TInt})
+		}
+	}
+	body := []Stmt{SliceSet{"p1", il(0), il(100)}, SliceSet{"p10", Len{vr("p10")}, il(110)}, SliceSet{"p12", il(3), il(120)}, ret(bin("+", bin("+", vr("p9"), vr("p11")), Itoa{bin("+", bin("+", Len{vr("p1")}, Len{vr("p10")}), Len{vr("p12")})}))}
+	args := []Expr{}
+	for i := 1; i <= 12; i++ {
+		switch i {
+		case 1:
+			args = append(args, vr("a"))
+		case 10:
+			args = append(args, vr("b"))
+		case 12:
+			args = append(args, vr("c"))
+		case 9:
+			args = append(args, sl("nine "))
+		case 11:
+			args = append(args, sl("eleven "))
+		default:
+			args = append(args, il(int64(i)))
+		}
+	}
+	stmts := []Stmt{fn("many", params, []Type{TString}, body...), def("a", SliceLit{TInt, []Expr{il(1)}}), def("b", SliceLit{TInt, []Expr{il(2), il(3)}}), def("c", SliceLit{TInt, nil}),
+		pr(call("many", args...)), pr(Index{"a", il(0)}, Len{vr("b")}, Index{"b", il(2)}, Len{vr("c")}, Index{"c", il(3)}, Index{"c", il(0)})}
+	return []BashCase{{Key: "S3/slices-at-parameter-positions-10-and-12", Prog: SingleFile(stmts)}}
+}
+
 func s3Aliasing() []BashCase {
 	I := func(vs ...int64) Expr {
 		e := []Expr{}
@@ -210,7 +254,7 @@ func s4Copy() []BashCase {
 	extra := map[string][]Stmt{
 		"self":                   {def("a", SliceLit{TInt, []Expr{il(1), il(2)}}), def("n", Copy{"a", vr("a")}), pr(vr("n"), Index{"a", il(0)}, Index{"a", il(1)})},
 		"alias":                  {def("a", SliceLit{TInt, []Expr{il(1), il(2)}}), def("b", vr("a")), pr(Copy{"b", vr("a")}, Len{vr("b")})},
-		"in-function":            {fn("cp", []Param{{"d", TSliceInt}, {"s", TSliceInt}}, []Type{TInt}, def("n", Copy{"d", vr("s")}), ret(vr("n"))), def("x", SliceLit{TInt, nil}), def("y", SliceLit{TInt, []Expr{il(7), il(8), il(9)}}), pr(call("cp", vr("x"), vr("y")), Len{vr("x")}, Index{"x", il(2)})},
+		"in-function":            {fn("cp", []Param{{"d", TSliceInt}, {"s", TSliceInt}}, []Type{TInt}, def("n", Copy{"d", vr("s")}), ret(vr("n"))), def("x", SliceLit{TInt, nil}), def("y", SliceLit{TInt, []Expr{il(7), il(8), il(9)}}), def("copied", call("cp", vr("x"), vr("y"))), pr(vr("copied"), Len{vr("x")}, Index{"x", il(2)})},
 		"global-dst-in-function": {VarDecl{Names: []string{"gd"}, Type: TSliceString}, fn("fill", nil, nil, def("n", Copy{"gd", SliceLit{TString, []Expr{sl("p q"), sl("r")}}}), pr(vr("n"))), callS("fill"), pr(Len{vr("gd")}, framed(Index{"gd", il(0)}))},
 		"result-unused":          {def("a", SliceLit{TInt, nil}), ExprStmt{Copy{"a", SliceLit{TInt, []Expr{il(1), il(2), il(3)}}}}, pr(Len{vr("a")}, Index{"a", il(2)})},
 		"result-unused-in-function": {fn("fill", []Param{{"d", TSliceString}}, nil, ExprStmt{Copy{"d", SliceLit{TString, []Expr{sl("a b"), sl("c")}}}}), def("x", SliceLit{TString, nil}), def("alias", vr("x")), callS("fill", vr("x")), pr(Len{vr("x")}, framed(Index{"alias", il(0)}), framed(Index{"x", il(1)}))},
@@ -298,6 +342,7 @@ func c03Families(c *Check) []BashCase {
 	cases = append(cases, s1Subscripts()...)
 	cases = append(cases, s2Growth()...)
 	cases = append(cases, s3Aliasing()...)
+	cases = append(cases, s3ManyParams()...)
 	cases = append(cases, s4Copy()...)
 	cases = append(cases, s5Range()...)
 	return cases
